@@ -1,6 +1,7 @@
 package main
 
 import (
+	"encoding/json"
 	"flag"
 	"fmt"
 	"reflect"
@@ -17,13 +18,16 @@ import (
 // (*_events.go) with call sequences and records which handlers every occurrence ran.
 //
 // Targets:  ls              handlerStore[*int] through the verif export
-//           es              eventHandlerStore through the verif export
-//           api:<obj>:<X>   lifecycle family X of a public object (On<X>/Once<X>/Off<X>, OffAll)
-//           eapi:<obj>      OnEvent/OnceEvent/OffEvent/OffAll of a public object
+//
+//	es              eventHandlerStore through the verif export
+//	api:<obj>:<X>   lifecycle family X of a public object (On<X>/Once<X>/Off<X>, OffAll)
+//	eapi:<obj>      OnEvent/OnceEvent/OffEvent/OffAll of a public object
+//
 // Objects:  nsp (Namespace), srv (Server), ssock (server socket), csock (client socket), mgr (Manager)
 //
 // Ops are JSON arrays: ["on",h] ["once",h] ["onsub",h] ["offsub",h] ["offsubs"] ["off",[h..]]
-// ["offall"] ["fire"]; for event targets ["on",e,h] ["once",e,h] ["off",e,[h..]] ["offall"] ["fire",e].
+// ["offall"] ["fire"]; for event targets ["on",e,h] ["once",e,h] ["off",e,[h..]] ["offall"] ["fire",e];
+// a handler index -1 in an event "off" is a literal nil argument.
 //
 // Mode enum: header row {"hdr":..}, then per prefix one row {"prefix":[alphabet indexes],
 // "obs":[octal strings]}: for every sequence s of `depth` ops over the alphabet (first op most
@@ -186,7 +190,11 @@ func (t *esTarget) apply(op hop) ([]int, bool) {
 		hs := ints(op[2])
 		var vals []reflect.Value // nil when no handler is given, as a direct off(name) call
 		for _, h := range hs {
-			vals = append(vals, reflect.ValueOf(evMenu[h]))
+			if h < 0 { // a nil handler: reflect.ValueOf(nil) is the zero Value
+				vals = append(vals, reflect.Value{})
+			} else {
+				vals = append(vals, reflect.ValueOf(evMenu[h]))
+			}
 		}
 		t.s.Off(evName(toInt(op[1])), vals)
 	case "offall":
@@ -314,17 +322,14 @@ func (t *objTarget) apply(op hop) ([]int, bool) {
 		case "off":
 			hs := ints(op[2])
 			name := evName(toInt(op[1]))
-			switch len(hs) { // direct calls, as a user writes them
-			case 0:
+			if len(hs) == 0 { // direct call, as a user writes it
 				ev.OffEvent(name)
-			case 1:
-				ev.OffEvent(name, evMenu[hs[0]])
-			case 2:
-				ev.OffEvent(name, evMenu[hs[0]], evMenu[hs[1]])
-			default:
+			} else {
 				args := make([]any, len(hs))
 				for i, h := range hs {
-					args[i] = evMenu[h]
+					if h >= 0 { // h < 0: a literal nil handler
+						args[i] = evMenu[h]
+					}
 				}
 				ev.OffEvent(name, args...)
 			}
@@ -482,11 +487,11 @@ func alphabet(spec, name string) (alpha []hop, suffix []hop) {
 	case (spec == "es" || strings.HasPrefix(spec, "eapi")) && name == "core":
 		alpha = []hop{{"on", 0, 0}, {"on", 0, 1}, {"on", 1, 0}, {"once", 0, 0}, {"once", 0, 1}, {"once", 1, 1},
 			{"off", 0, []int{}}, {"off", 0, []int{0}}, {"off", 0, []int{0, 1}}, {"off", 0, []int{1, 1}},
-			{"off", 1, []int{0}}, {"offall"}, {"fire", 0}, {"fire", 1}}
+			{"off", 1, []int{0}}, {"off", 0, []int{-1, 0}}, {"offall"}, {"fire", 0}, {"fire", 1}}
 		suffix = []hop{{"fire", 0}, {"fire", 1}, {"fire", 0}, {"fire", 1}}
 	case (spec == "es" || strings.HasPrefix(spec, "eapi")) && name == "closures":
 		alpha = []hop{{"on", 0, 3}, {"on", 0, 4}, {"once", 0, 4}, {"on", 0, 0}, {"on", 1, 4},
-			{"off", 0, []int{3}}, {"off", 0, []int{4, 0}}, {"off", 0, []int{}}, {"fire", 0}}
+			{"off", 0, []int{3}}, {"off", 0, []int{4, 0}}, {"off", 0, []int{}}, {"off", 0, []int{-1}}, {"fire", 0}}
 		suffix = []hop{{"fire", 0}, {"fire", 1}, {"fire", 0}, {"fire", 1}}
 	case strings.HasPrefix(spec, "api") && name == "core":
 		alpha = []hop{{"on", 0}, {"on", 1}, {"once", 0}, {"once", 1}, {"off", []int{}},
@@ -588,7 +593,11 @@ func randomOps(spec string, r *vk.Rand, maxLen int) []hop {
 			case c < 50:
 				ops = append(ops, hop{"once", e, r.Intn(nh)})
 			case c < 70:
-				ops = append(ops, hop{"off", e, hs(nh)})
+				l := hs(nh)
+				if len(l) > 0 && r.Intn(5) == 0 {
+					l[r.Intn(len(l))] = -1 // a nil handler among the arguments
+				}
+				ops = append(ops, hop{"off", e, l})
 			case c < 74:
 				ops = append(ops, hop{"offall"})
 			default:
@@ -633,6 +642,24 @@ func randomOps(spec string, r *vk.Rand, maxLen int) []hop {
 	return ops
 }
 
+// emitCase runs one explicit call sequence and writes the explicit row.
+func emitCase(out *vk.Out, spec string, ops []hop) {
+	res := runSeq(spec, ops)
+	outs := res.Outs
+	if strings.HasPrefix(spec, "es") || strings.HasPrefix(spec, "eapi") {
+		// report digits-1 so that the ids are those of the model (code+instance)
+		outs = make([][]int, len(res.Outs))
+		for j, o := range res.Outs {
+			outs[j] = make([]int, len(o))
+			for k, id := range o {
+				outs[j][k] = int(digitOf(spec, id)-'0') - 1
+			}
+		}
+	}
+	out.Put(map[string]any{"target": spec, "ops": ops, "outs": outs,
+		"panic": res.Panicked || !res.Bystand, "panicmsg": res.PanicMsg, "lens": res.Lens, "menu": evMenuFval})
+}
+
 func randomMode(out *vk.Out, spec string, seed uint64, n, maxLen int) {
 	for _, c := range []byte(spec) { // an own stream per target
 		seed = seed*1099511628211 + uint64(c)
@@ -640,20 +667,7 @@ func randomMode(out *vk.Out, spec string, seed uint64, n, maxLen int) {
 	r := vk.NewRand(seed)
 	for i := 0; i < n; i++ {
 		ops := randomOps(spec, r.Fork(), maxLen)
-		res := runSeq(spec, ops)
-		outs := res.Outs
-		if strings.HasPrefix(spec, "es") || strings.HasPrefix(spec, "eapi") {
-			// report digits-1 so that the ids are those of the model (code+instance)
-			outs = make([][]int, len(res.Outs))
-			for j, o := range res.Outs {
-				outs[j] = make([]int, len(o))
-				for k, id := range o {
-					outs[j][k] = int(digitOf(spec, id)-'0') - 1
-				}
-			}
-		}
-		out.Put(map[string]any{"target": spec, "ops": ops, "outs": outs,
-			"panic": res.Panicked || !res.Bystand, "panicmsg": res.PanicMsg, "lens": res.Lens, "menu": evMenuFval})
+		emitCase(out, spec, ops)
 	}
 }
 
@@ -777,6 +791,7 @@ func handlersMain(args []string) error {
 	n := fs.Int("n", 500, "random cases / once handlers in a race")
 	maxLen := fs.Int("maxlen", 30, "")
 	goroutines := fs.Int("goroutines", 16, "")
+	opsJSON := fs.String("ops", "", "mode replay: the call sequence as JSON")
 	outp := fs.String("out", "-", "")
 	fs.Parse(args)
 	if err := checkMenu(); err != nil {
@@ -795,6 +810,16 @@ func handlersMain(args []string) error {
 			randomMode(out, sp, *seed, *n, *maxLen)
 		case "race":
 			raceMode(out, sp, *goroutines, *n)
+		case "replay":
+			var raw [][]any
+			if err := json.Unmarshal([]byte(*opsJSON), &raw); err != nil {
+				return err
+			}
+			ops := make([]hop, len(raw))
+			for i, o := range raw {
+				ops[i] = hop(o)
+			}
+			emitCase(out, sp, ops)
 		default:
 			return fmt.Errorf("unknown mode %s", *mode)
 		}
